@@ -209,7 +209,7 @@ def run(tier, seed):
     for (exp, d), rq, o in zip(smeta2, sreq, so):
         hs_req.append(f"mstream {exp} {d} {o.split()[0]}" if o.split() and o.split()[0] != "bad-item" and len(o.split()) > 1 else "noop")
     hs_out = run_parallel(har, hs_req, jobs=12)
-    n_sess_ok = n_sess_msgs = n_sess_unknown = n_sess_bad = 0
+    n_sess_ok = n_sess_msgs = n_sess_unknown = n_sess_bad = n_sess_c03 = 0
     for (exp, d), rq, o, hq, h in zip(smeta2, sreq, so, hs_req, hs_out):
         if hq == "noop":
             rep.violation(f"C02/session/model/{exp}-{d}", f"the model cannot build the session '{rq[:200]}': {o[:100]}", {"request": rq, "model": o[:300]}, no_input=True)
@@ -223,6 +223,17 @@ def run(tier, seed):
             if len(toks) != len(kinds_) + 2:
                 return line
             return " ".join([toks[0]] + [("x@" + t.rsplit("@", 1)[1]) if k_ == "x" and not t.startswith("io:") else t for k_, t in zip(kinds_, toks[1:-1])] + [toks[-1]])
+        if h.startswith("abort") and "x" in kinds_:
+            # a frame over arbitrary body bytes can make a generated reader request an absurd allocation before its guard (C03's known finding
+            # counted-array-capacity-before-guard) and kill the process.  That is C03's subject: when one of the arbitrary frames alone kills the
+            # blocking reader too, the stream is counted, not reported here
+            stream_ = bytes.fromhex(hq.split()[-1])
+            ends_ = [int(t.rsplit("@", 1)[1]) for t in want.split()[1:-1]]
+            starts_ = [0] + ends_[:-1]
+            singles = [f"dec {exp} {d} {stream_[a_:b_].hex()}" for k_, a_, b_ in zip(kinds_, starts_, ends_) if k_ == "x"]
+            if any(o_.startswith("abort") for o_ in run_lines(har, singles)):
+                n_sess_c03 += 1
+                continue
         if _norm(h) == _norm(want):
             n_sess_ok += 1
             n_sess_msgs += len(want.split()) - 2
@@ -332,7 +343,7 @@ def run(tier, seed):
         "trusted_base": TRUSTED_BASE_COMMON + ["hand transcription of traits/*.rs, util/trait_helpers/*.rs, the header parsing in opcodes.rs and expected.rs (validated by the correspondence)",
                                                "the body codec of *_WARDEN_DATA (u8[-], at most 65535 bytes) is modelled in the driver only for this correspondence"],
         "theorems": po["theorems"], "constants_checked": consts_seen,
-        "sessions": {"streams": len(sreq), "agreeing": n_sess_ok, "messages": n_sess_msgs, "unknown_opcode_frames": n_sess_unknown, "unparsable_bodies": n_sess_bad},
+        "sessions": {"streams": len(sreq), "agreeing": n_sess_ok, "messages": n_sess_msgs, "unknown_opcode_frames": n_sess_unknown, "unparsable_bodies": n_sess_bad, "streams_left_to_C03 (an arbitrary frame alone aborts the reader: known allocation finding)": n_sess_c03},
         "builtin_type_messages_written": n_builtin, "evaluations": len(reqs) + len(reads) + len(seqs) + len(ereqs), "encrypted_boundary_sequences": len(ereqs), "distinct_nontrivial": len(set(meta)) + len(set(map(str, smeta))),
         "write_requests": len(reqs), "read_requests": len(reads), "sequences": len(seqs), "writes_violating_property": n_abort,
         "rule": "body lengths 0..300 (thorough 0..2048), +-8 around 0x7FFB 0x7FFF 0x8000 0xFFFB 0xFFFF 0x10003, random lengths, large Wrath server bodies; 3 expansions x 2 directions; "
